@@ -156,8 +156,9 @@ func allProps() []PropSpec {
 			Harnesses: []HarnessSpec{
 				{Func: "ZZ_C13_H1", Pkg: "pkg/network/standard", Quick: map[string]int{"K": 3}, Thorough: map[string]int{"K": 4}, Covers: []string{"reached-assert", "crossed-node-boundary"}, Unwind: 40000, MaxSteps: 8000000},
 				{Func: "ZZ_C13_H2", Pkg: "pkg/network/standard", Quick: map[string]int{"K": 3}, Thorough: map[string]int{"K": 4}, Covers: []string{"reached-assert"}, Unwind: 40000, MaxSteps: 8000000},
+				{Func: "ZZ_C13_H3", Pkg: "pkg/network/standard", Quick: map[string]int{"K": 2}, Thorough: map[string]int{"K": 2}, Covers: []string{"reached-assert", "hit-end-of-input", "peek-beyond-end"}, Unwind: 40000, MaxSteps: 8000000, Note: "end of input at any point: stream of T bytes (T around node-boundary sizes or 0..3), four fragmentations, last bytes with or without the error in the same read"},
 			},
-			Assumptions: []string{"operation sequences of length K with sizes base+d, base in {1,1024,4096,8192}, d in [-1,1]; input fragmented as whole / 1000 / 4096 / 5000-byte reads", "mcache and sync.Pool are modelled as LIFO free lists that re-issue freed blocks (so use-after-release is observable)", "TLS conn, ReadFrom, the 512 KiB malloc limit and EOF/error paths are outside"},
+			Assumptions: []string{"operation sequences of length K with sizes base+d, base in {1,1024,4096,8192}, d in [-1,1]; input fragmented as whole / 1000 / 4096 / 5000-byte reads", "mcache and sync.Pool are modelled as LIFO free lists that re-issue freed blocks (so use-after-release is observable)", "end of input: ZZ_C13_H3 (two operations); TLS conn, ReadFrom, the 512 KiB malloc limit, read errors other than end of input and write errors are outside"},
 		},
 		{
 			ID: "C09",
